@@ -100,9 +100,18 @@ async def _scenario(sc):
 
     orig_hvc = main.handle_value_changes
 
+    clean_passes = [0]     # consecutive completed passes that saw no value change and left nothing pending
+
+    def hub_busy():
+        busy = any(p.has_pending_eval() or p.is_writing() or p._write_value_queue.qsize() for p in ports)
+        busy = busy or bool(main._force_eval_expression_ports) or main._force_eval_all_expressions
+        return busy or any(p.is_enabled() and p.store != p.get_last_read_value() for p in ports)
+
     async def hvc_wrapper(changed_set, value_pairs, now):
+        saw_change = any(isinstance(x, core_ports.BasePort) for x in changed_set)
         r = await orig_hvc(changed_set, value_pairs, now)
         trace.append(['PassEnd'])
+        clean_passes[0] = 0 if (saw_change or hub_busy()) else clean_passes[0] + 1
         return r
     main.handle_value_changes = hvc_wrapper
 
@@ -166,16 +175,14 @@ async def _scenario(sc):
                 await pp.disable()
                 trace.append(['Disable', cmd[2]])
             log.append([vloop.vtime_ms()] + cmd[1:])
-        # let the hub settle: quiescent = nothing pending for 10 consecutive ticks
-        calm = 0
+        # let the hub settle: quiescent = two consecutive COMPLETE polling passes that saw no value change and left nothing
+        # pending (a pass over slow drivers takes many ticks: "nothing pending for a while" is not enough, the change a pass has
+        # already read is only acted upon when that pass ends), and nothing pending now
+        clean_passes[0] = 0
         deadline = vloop.vtime_ms() + sc.get('settle_ms', 4000)
-        while calm < 10 and vloop.vtime_ms() < deadline:
+        while (clean_passes[0] < 2 or hub_busy()) and vloop.vtime_ms() < deadline:
             await asyncio.sleep(settings.core.tick_interval / 1000.0)
-            busy = any(p.has_pending_eval() or p.is_writing() or p._write_value_queue.qsize() for p in ports)
-            busy = busy or bool(main._force_eval_expression_ports) or main._force_eval_all_expressions
-            busy = busy or any(p.is_enabled() and p.store != p.get_last_read_value() for p in ports)
-            calm = 0 if busy else calm + 1
-        quiescent = calm >= 10
+        quiescent = clean_passes[0] >= 2 and not hub_busy()
     except Exception as e:  # noqa
         import traceback
         error = traceback.format_exc()[-1500:]
